@@ -32,6 +32,15 @@ RULE = (
     'and event-buffer dimensions named like internal dims / coordinates; every calling convention and str-like / '
     'bool-like argument type; the same conversion through transform_coords with deduce_conversion_graph / '
     "conversion_graph / the kernels as nodes of a user's graph; one shard with > 2^20 events per conversion; "
+    'round 7: ALIASING programs on geometry by positions with the sample exactly at the origin (+0.0 / -0.0), the source '
+    'exactly at the origin, the sample elsewhere (x 16 targets incl. every geometry target, without scattering, hkl), on '
+    'beams and on reduced geometry: convert, write in place into every coordinate the conversion COMPUTED (dense and '
+    'event level; existing ones are documented shallow copies), the input must stay as it was and converting it again '
+    'must give the first result; then change the argument in place (event-coordinate values / its unit / one pixel of '
+    'a geometry coordinate / weights and a mask): computed coordinates of the earlier result must stay, and the very '
+    'same object is converted again and judged for its new contents; names outside NFC / NFKC for unrelated '
+    'coordinates, masks and the pixel dimension; pixel / bin dimensions of length 2, 3, 4 with exactly 2, 3, 4 events '
+    'per bin; one first convert() per shard in a fresh interpreter that imports only the entry module; '
     'distinct = (origin, target, layout, event dtype, geometry kind, edges, container) signatures'
 )
 ASSUMPTIONS = [
@@ -400,6 +409,15 @@ class Monitor:
                 ctx.violation('no_event_target', f'no event coordinate {target!r} in the result', case)
                 return
             # ---- preservation
+            # (a dimension named like a coordinate -- given or computed on the way -- is a dimension-coordinate:
+            # transform_coords documents that it renames such a dimension when that coordinate is consumed; every other
+            # dimension stays)
+            gone = [x for x in d.dims if x != origin and x not in out.dims and x not in RESERVED
+                    and not any(x in m for m in (d.coords, out.coords, d.bins.constituents['data'].coords, out_tab.coords))]
+            if gone:
+                # (names are compared code point by code point: a name that merely normalises to another is another name)
+                ctx.violation('dims_changed', f'dimension(s) {gone!r} of the input are not dimensions of the result '
+                              f'{out.dims!r}', case, part='dims')
             ev_keep, dense_keep = pre['ev_keep'], pre['dense_keep']
             before, after = pre['parts'], self.parts(out, ev_keep, dense_keep)
             if ev_keep - UNRELATED_BY_NAME:
@@ -896,11 +914,15 @@ def gen(rng, ctx, force=None):
         evdt = 'float64'      # scipp has no variances for integers
     edim = force.get('buffer_dim', 'event')
     npix = int(rng.integers(1, 9))
+    if force.get('npix'):
+        npix = int(force['npix'])
     if layout in ('slice_pixels', 'one_pixel'):
         npix = max(npix, 2)
     grid = layout in ('2d', 'transposed', 'slice_tof') or (layout in ('slice_pixels', 'one_pixel', 'permuted')
                                                            and rng.random() < 0.5)
     nt = int(rng.integers(1, 6)) if grid else None
+    if force.get('nt') and grid:
+        nt = int(force['nt'])
     if layout == 'slice_tof':
         nt = max(nt, 2)
     nbins = npix * (nt or 1)
@@ -915,6 +937,8 @@ def gen(rng, ctx, force=None):
             sizes[rng.random(nbins) < 0.5] = 0
         if force and sizes.sum() == 0:
             sizes[rng.integers(0, nbins)] = 7      # a forced class is there to be judged: at least one event
+        if force.get('bin_size'):
+            sizes[:] = int(force['bin_size'])
     # unused events before / between / after the bins: always for 'gaps', sometimes in the parent of a view
     gapped = layout == 'gaps' or (layout in NONCOMPACT and rng.random() < 0.3)
     gaps = rng.integers(0, 4, size=nbins) if gapped else np.zeros(nbins, dtype=np.int64)
@@ -945,15 +969,17 @@ def gen(rng, ctx, force=None):
         ctx.hit('event coordinate with variances')
     weights = sc.array(dims=[edim], values=rng.random(nbuf), variances=rng.random(nbuf), unit='counts',
                        dtype=['float64', 'float32'][rng.integers(0, 2)])
-    tab = sc.DataArray(weights, coords={origin: evcoord, 'unrelated_ev': sc.arange(edim, nbuf, unit=None)},
-                       masks={'evmask': sc.array(dims=[edim], values=rng.random(nbuf) < 0.2)})
+    # names of the items the conversion has nothing to do with (forced classes give them names outside NFC / NFKC)
+    nm = {'ev': 'unrelated_ev', 'px': 'unrelated_px', 'evmask': 'evmask', 'pxmask': 'pxmask', **(force.get('names') or {})}
+    tab = sc.DataArray(weights, coords={origin: evcoord, nm['ev']: sc.arange(edim, nbuf, unit=None)},
+                       masks={nm['evmask']: sc.array(dims=[edim], values=rng.random(nbuf) < 0.2)})
     dims = ['pixel', origin] if nt else ['pixel']
     shape = (npix, nt) if nt else (npix,)
     # pixel of every entry of the event buffer (entries outside all bins: pixel 0, never looked at)
     pix_of_buf = np.zeros(nbuf, dtype=np.int64)
     for j in range(nbins):
         pix_of_buf[begin[j]:end[j]] = j // (nt or 1)
-    coords = {'unrelated_px': sc.array(dims=['pixel'], values=rng.random(npix), unit='K')}
+    coords = {nm['px']: sc.array(dims=['pixel'], values=rng.random(npix), unit='K')}
     noscatter = bool(mode) and 'noscatter' in mode
     geom_kind = force.get('geom')
     if geom_kind is None:
@@ -977,6 +1003,10 @@ def gen(rng, ctx, force=None):
         if geom_kind == 'positions':
             placement = force.get('placement') or PLACEMENTS[rng.integers(0, 2)]
             off = np.zeros(3) if placement == 'at the origin' else rng.uniform(-20.0, 20.0, size=3) * lf
+            if placement == 'at the origin (negative zeros)':
+                off = -np.zeros(3)
+            elif placement == 'source at the origin':
+                off = -(R @ np.array([0.0, 0.0, -l1]))      # x + (-x) is exactly +0.0
             coords['source_position'] = sc.vector(off + R @ np.array([0.0, 0.0, -l1]), unit=lunit)
             coords['sample_position'] = sc.vector(off, unit=lunit)
             coords['position'] = sc.vectors(dims=['pixel'], values=off + pix, unit=lunit)
@@ -1007,7 +1037,7 @@ def gen(rng, ctx, force=None):
         lo, hi = (float(np.min(vals)), float(np.max(vals))) if nbuf else (1.0, 2.0)
         ev = np.sort(rng.uniform(lo * 0.9, hi * 1.1 + 1, size=nt + 1))
         coords[origin] = sc.array(dims=[origin], values=ev, unit=ounit)
-    masks = {'pxmask': sc.array(dims=['pixel'], values=rng.random(npix) < 0.3)}
+    masks = {nm['pxmask']: sc.array(dims=['pixel'], values=rng.random(npix) < 0.3)}
     if nt and (force or rng.random() < 0.5):
         # masks in every shape a grid allows: along the origin dimension (which the conversion renames) and 2-d
         masks['binmask'] = sc.array(dims=[origin], values=rng.random(nt) < 0.3)
@@ -1056,6 +1086,8 @@ def gen(rng, ctx, force=None):
         ctx.hit('pixel dimension named:' + pdim)
     if edim != 'event':
         ctx.hit('event-buffer dimension named:' + edim)
+    if nm.get('dim') and 'pixel' in da.dims:
+        da = da.rename_dims({'pixel': nm['dim']})
     nevents = int(da.bins.size().data.sum().value) if layout in NONCOMPACT else int(sizes.sum())
     shape_class = f'{da.data.ndim}-d'
     sig = (origin, tgt, mode, layout, evdt, geom_kind, 'edges' if edges else 'noedges', ounit, lunit, shape_class)
@@ -1281,6 +1313,351 @@ def reconversion_program(scn, mon, ctx, rng, k, index, da, origin, tgt, scatter,
         ctx.count('re-conversion: first result changed during the sequence')
 
 
+# (f) ALIASING OF RESULT AND ARGUMENTS, IN-PLACE MODIFICATION BETWEEN TWO CALLS.  "The input object is not modified"
+#     also after the call has returned: what the conversion COMPUTED (every coordinate of the result, dense or event
+#     level, that the input does not have) is new memory.  transform_coords documents that EXISTING data and coordinates
+#     are shallow-copied, so only the computed ones are judged: (1) a write into each of them leaves the input as it was
+#     and converting the same input again gives the first result again; (2) a write into the argument leaves the
+#     computed coordinates of a result obtained EARLIER as they were, and the next call on the very same object is the
+#     conversion of its NEW contents (judged by the monitor like any call).  Geometry by positions with the sample /
+#     the source exactly at the origin (+0.0 and -0.0) is where "subtract the sample position" is the identity on values.
+ALIAS_PLACEMENTS = ['at the origin', 'at the origin (negative zeros)', 'source at the origin', 'elsewhere']
+ALIAS_TARGETS = [('tof', 'dspacing'), ('tof', 'wavelength:noscatter'), ('tof', 'wavelength'), ('tof', 'Q'),
+                 ('tof', 'energy_transfer:direct'), ('tof', 'energy_transfer:indirect'), ('tof', 'geom:scattered_beam'),
+                 ('tof', 'geom:incident_beam'), ('tof', 'geom:two_theta'), ('tof', 'geom:L2'), ('tof', 'geom:L1'),
+                 ('tof', 'geom:Ltotal'), ('tof', 'geom:Ltotal:noscatter'), ('tof', 'hkl:'), ('wavelength', 'Q'), ('tof', 'energy')]
+ALIAS_LAYOUTS = ['1d', '2d', 'some_empty', 'gaps', 'transposed', 'one_pixel', 'permuted']
+MODIFICATIONS = ['values of the event coordinate', 'one pixel (a slice) of a geometry coordinate',
+                 'unit of the event coordinate', 'weights and a mask']
+ALIAS_PER_SHARD = 8
+
+
+def alias_label(placement, t):
+    return f'aliasing: sample {placement} x {t[1]}' + ('' if t[0] == 'tof' else f' from {t[0]}')
+
+
+def alias_pairs():
+    return [(pl, t) for t in ALIAS_TARGETS for pl in ALIAS_PLACEMENTS]
+
+
+def var_fp(v):
+    return fp((str(v.unit), str(v.dtype), tuple(v.dims), tuple(v.shape), np.asarray(v.values),
+               None if v.variances is None else np.asarray(v.variances)))
+
+
+def computed_parts(out, inp):
+    """[(item, level, name, variable)]: the coordinates of the result that the input does not have."""
+    parts = []
+    ins = dict(binned_items(inp))
+    for name, item in binned_items(out):
+        src = ins.get(name)
+        if src is None:
+            continue
+        for k, v in item.coords.items():
+            if v.bins is None and str(k) not in src.coords:
+                parts.append((name, 'dense', str(k), v))
+        tab, stab = item.bins.constituents['data'], src.bins.constituents['data']
+        for k, v in tab.coords.items():
+            if str(k) not in stab.coords:
+                parts.append((name, 'event', str(k), v))
+    return parts
+
+
+def computed_fp(out, inp):
+    return {(n, lv, k): var_fp(v) for n, lv, k, v in computed_parts(out, inp)}
+
+
+def write_in_place(v, how):
+    """Overwrite the memory of ``v`` (another value everywhere); False if scipp refuses (read-only variable)."""
+    vals = np.asarray(v.values)
+    try:
+        if v.dtype in (sc.DType.float64, sc.DType.float32, sc.DType.vector3, sc.DType.int64, sc.DType.int32):
+            if how % 2 and np.all(vals != 0):
+                v += v
+            else:
+                v.values = vals * 2 + 1
+            return True
+    except (sc.VariableError, sc.DTypeError, RuntimeError):
+        return False
+    return False
+
+
+def modify_argument(obj, origin, kind, elastic):
+    """In-place change of the argument of a conversion; returns a description (None: nothing to change)."""
+    items = binned_items(obj)
+    if kind == 'unit of the event coordinate':
+        c0 = items[0][1].bins.constituents['data'].coords[origin]
+        new = [n for u, n in (('us', 'ns'), ('ns', 'us'), ('ms', 'us'), ('angstrom', 'nm'), ('nm', 'angstrom')) if c0.unit == sc.Unit(u)]
+        try:
+            if not elastic or not new:
+                raise sc.VariableError('')   # relabelled times of flight are all unphysical for a given Ei / Ef
+            if origin in obj.coords and obj.coords[origin].bins is None:
+                obj.coords[origin].unit = new[0]      # the bin edges with their events (read-only in a slice of a parent)
+        except sc.VariableError:
+            kind = 'values of the event coordinate'
+        else:
+            for _, it in items:
+                it.bins.constituents['data'].coords[origin].unit = new[0]
+            return kind
+    if kind == 'values of the event coordinate':
+        for _, it in items:
+            c = it.bins.constituents['data'].coords[origin]
+            c.values = np.asarray(c.values) * (2 if c.dtype in (sc.DType.int64, sc.DType.int32) else 1.5)
+        return kind
+    if kind == 'one pixel (a slice) of a geometry coordinate':
+        for name, f in (('position', None), ('scattered_beam', None), ('L2', 1.5), ('Ltotal', 1.5), ('two_theta', 0.5),
+                        ('final_energy', 1.25), ('incident_energy', 1.25)):
+            if name not in obj.coords or obj.coords[name].bins is not None:
+                continue
+            v = obj.coords[name]
+            if v.ndim:
+                v = v[v.dims[0], 0]
+            if f is None:
+                vals = np.asarray(v.values)
+                v.values = vals + 0.125 * max(1.0, float(np.max(np.abs(vals))))
+            else:
+                v.values = np.asarray(v.values) * f
+            return f'{kind}: {name}'
+        return None
+    for _, it in items:
+        w = it.bins.constituents['data'].data
+        w.values = np.asarray(w.values) * 2
+    for k in obj.masks if isinstance(obj, sc.DataArray) else []:
+        m = obj.masks[k]
+        m.values = ~np.asarray(m.values)
+        break
+    return kind
+
+
+def aliasing_program(scn, mon, ctx, k, obj, origin, tgt, scatter, meta, modification):
+    def conv(what, j=0):
+        mon.meta = dict(meta, program='aliasing', step=what)
+        try:
+            return call_convert(scn, ctx, k + j, obj, origin, tgt, scatter)
+        except Exception:  # noqa: BLE001  judged by the monitor
+            return None
+
+    case = {**meta, 'origin': origin, 'target': tgt, 'program': 'aliasing', 'input': describe(obj)}
+    try:
+        fp0 = fp(obj)
+    except Exception:  # noqa: BLE001
+        ctx.oracle_error('C06 aliasing program (fingerprint)')
+        return
+    first = conv('first conversion')
+    if first is None:
+        return
+    try:
+        snapshot = computed_fp(first, obj)
+        parts = computed_parts(first, obj)
+    except Exception:  # noqa: BLE001
+        ctx.oracle_error('C06 aliasing program (computed parts)')
+        return
+    # ---- (2) write into every computed coordinate of the result: the argument stays as it was
+    for j, (item, level, name, v) in enumerate(parts):
+        try:
+            h = var_fp(v)
+            wrote = write_in_place(v, k + j)
+            if not wrote or (var_fp(v) == h):
+                ctx.count('aliasing: computed coordinate not writable / without elements')
+                continue
+            changed = fp(obj) != fp0
+        except Exception:  # noqa: BLE001
+            ctx.oracle_error('C06 aliasing program (write into the result)')
+            return
+        ctx.event('write into a computed coordinate of the result')
+        ctx.count(f'aliasing: writes into computed {level} coordinates')
+        if changed:
+            ctx.violation('input_modified', f'an in-place write into the computed {level} coordinate {name!r} of the '
+                          'RESULT changed the INPUT of the conversion: the result shares memory with its argument',
+                          dict(case, coordinate=name, **({'item': item} if item is not None else {})),
+                          via='write into the result', level=level)
+            try:
+                fp0 = fp(obj)
+            except Exception:  # noqa: BLE001
+                ctx.oracle_error('C06 aliasing program (fingerprint)')
+                return
+    # ---- ... and the conversion of the same argument gives the first result again
+    again = conv('same input converted again after in-place writes into the first result', 1)
+    ctx.event('conversion repeated after writes into the result')
+    try:
+        same = again is not None and computed_fp(again, obj) == snapshot
+    except Exception:  # noqa: BLE001
+        ctx.oracle_error('C06 aliasing program (repeat)')
+        return
+    if not same:
+        diff = [] if again is None else sorted(str(key[1:]) for key, h in snapshot.items() if computed_fp(again, obj).get(key) != h)
+        ctx.violation('not_repeatable', 'after in-place writes into the computed coordinates of the first result, '
+                      f'converting the same input again gives other values (differs: {", ".join(diff)})', case,
+                      via='write into the result')
+    if again is None:
+        return
+    # ---- (1) write into the argument: the computed coordinates of the earlier result stay; the next call on the very
+    # same object converts the new contents
+    try:
+        before = computed_fp(again, obj)
+        what = modify_argument(obj, origin, modification, (origin, tgt) in ELASTIC_DEF or tgt in GEOM_DEF or tgt in HKL_TARGETS)
+        if what is None or fp(obj) == fp0:
+            ctx.count('aliasing: argument not modifiable')
+            return
+        follows = [str(key[1:]) for key, h in computed_fp(again, obj).items() if before.get(key) != h]
+    except Exception:  # noqa: BLE001
+        ctx.oracle_error('C06 aliasing program (write into the argument)')
+        return
+    ctx.event('write into the argument after the call')
+    ctx.hit('in-place modification between two calls: ' + what.split(':')[0])
+    if follows:
+        ctx.violation('result_follows_argument', f'an in-place change of the argument ({what}) after the call changed '
+                      f'computed coordinates of the result obtained earlier: {", ".join(sorted(follows))}',
+                      dict(case, modification=what), via='write into the argument')
+    n0 = ctx.events.get('convert(binned)', 0)
+    third = conv(f'the very same object converted again after an in-place change ({what})', 2)
+    if third is not None and ctx.events.get('convert(binned)', 0) > n0:
+        ctx.event('conversion of the same object after an in-place change')
+
+
+# (g) FIRST CALL IN A FRESH INTERPRETER: a subprocess that imports numpy, scipp and ONLY the module of the entry point
+#     (neither scipp.constants nor another scippneutron module nor this harness), rebuilds the same binned input from a
+#     JSON document and converts it once.  What it computed must be bit for bit what the worker computed for the same
+#     input (whose call the monitor judges against twins and definitions).
+FRESH_MODULES = ['scippneutron', 'scippneutron.core.conversions', 'scippneutron.core']
+REPORT_SRC = r'''
+def _var_doc(v):
+    import numpy as np
+    a = np.ascontiguousarray(np.asarray(v.values))
+    return [str(v.unit), str(v.dtype), list(v.dims), list(v.shape), a.tobytes().hex(),
+            None if v.variances is None else np.ascontiguousarray(np.asarray(v.variances)).tobytes().hex()]
+
+
+def report(out, inp):
+    """Everything of the result, by name: dense coordinates, masks, bin indices, event buffer."""
+    doc = {'dims': list(out.dims), 'shape': list(out.shape)}
+    for k, v in out.coords.items():
+        if v.bins is None:
+            doc['coord:' + str(k)] = _var_doc(v)
+    for k, v in out.masks.items():
+        doc['mask:' + str(k)] = _var_doc(v)
+    c = out.bins.constituents
+    doc['begin'], doc['end'] = _var_doc(c['begin']), _var_doc(c['end'])
+    doc['weights'] = _var_doc(c['data'].data)
+    for k, v in c['data'].coords.items():
+        doc['event coord:' + str(k)] = _var_doc(v)
+    for k, v in c['data'].masks.items():
+        doc['event mask:' + str(k)] = _var_doc(v)
+    return doc
+'''
+FRESH_SCRIPT = r'''
+import json, sys
+stage = 'setup'
+try:
+    import numpy as np
+    import scipp as sc
+    spec = json.load(open(sys.argv[1]))
+
+    def var(d):
+        if d['dtype'] == 'vector3':
+            vals = np.array(d['values'], dtype='float64').reshape([*d['shape'], 3])
+            return sc.vectors(dims=d['dims'], values=vals, unit=d['unit']) if d['dims'] else sc.vector(vals, unit=d['unit'])
+        vals = np.array(d['values'], dtype=d['dtype']).reshape(d['shape'])
+        var_ = None if d['variances'] is None else np.array(d['variances'], dtype=d['dtype']).reshape(d['shape'])
+        if d['dims']:
+            return sc.array(dims=d['dims'], values=vals, variances=var_, unit=d['unit'], dtype=d['dtype'])
+        return sc.scalar(vals[()], variance=None if var_ is None else var_[()], unit=d['unit'], dtype=d['dtype'])
+
+    def build():
+        t = spec['table']
+        tab = sc.DataArray(var(t['data']), coords={k: var(v) for k, v in t['coords'].items()},
+                           masks={k: var(v) for k, v in t['masks'].items()})
+        b = sc.bins(begin=var(spec['begin']), end=var(spec['end']), dim=spec['dim'], data=tab)
+        return sc.DataArray(b, coords={k: var(v) for k, v in spec['coords'].items()},
+                            masks={k: var(v) for k, v in spec['masks'].items()})
+
+    da = build()
+    exec(spec['report_src'])
+    before = report(da, da)
+    loaded = sorted(m for m in sys.modules if m.split('.')[0] == 'scippneutron' or m == 'scipp.constants')
+    stage = 'import'
+    import importlib
+    mod = importlib.import_module(spec['module'])
+    stage = 'call'
+    out = mod.convert(da, spec['origin'], spec['target'], spec['scatter'])
+    stage = 'report'
+    print(json.dumps({'stage': 'done', 'file': getattr(mod, '__file__', None), 'preloaded': loaded,
+                      'result': report(out, da), 'input_unchanged': report(da, da) == before,
+                      'input_as_built': before}))
+except BaseException as e:  # noqa: BLE001
+    import traceback
+    print(json.dumps({'stage': stage, 'error': type(e).__name__ + ': ' + str(e), 'trace': traceback.format_exc()[-1500:]}))
+'''
+
+
+def _var_spec(v):
+    vals = np.asarray(v.values)
+    dt = str(v.dtype)
+    if dt not in ('float64', 'float32', 'int64', 'int32', 'bool', 'vector3'):
+        raise TypeError(dt)
+    return {'dims': list(v.dims), 'shape': list(v.shape), 'unit': None if v.unit is None else str(v.unit), 'dtype': dt,
+            'values': vals.ravel().tolist(), 'variances': None if v.variances is None else np.asarray(v.variances).ravel().tolist()}
+
+
+def fresh_interpreter_program(scn, mon, ctx, k, da, origin, tgt, scatter, meta):
+    import json
+    import os
+    import subprocess
+    import sys
+    import tempfile
+    case = {**meta, 'origin': origin, 'target': tgt, 'program': 'fresh interpreter', 'input': describe(da)}
+    mon.meta = dict(meta, program='fresh interpreter', step='the call in the worker process')
+    try:
+        mine = scn.convert(da, origin, tgt, scatter)
+    except Exception:  # noqa: BLE001  judged by the monitor
+        return
+    module = FRESH_MODULES[k % len(FRESH_MODULES)]
+    try:
+        ns = {}
+        exec(REPORT_SRC, ns)  # noqa: S102  the same few lines that the subprocess runs
+        c = da.bins.constituents
+        spec = {'module': module, 'origin': origin, 'target': tgt, 'scatter': bool(scatter), 'report_src': REPORT_SRC,
+                'begin': _var_spec(c['begin']), 'end': _var_spec(c['end']), 'dim': c['dim'],
+                'table': {'data': _var_spec(c['data'].data), 'coords': {str(n): _var_spec(v) for n, v in c['data'].coords.items()},
+                          'masks': {str(n): _var_spec(v) for n, v in c['data'].masks.items()}},
+                'coords': {str(n): _var_spec(v) for n, v in da.coords.items()},
+                'masks': {str(n): _var_spec(v) for n, v in da.masks.items()}}
+        want_input = ns['report'](da, da)
+        want = ns['report'](mine, da)
+        with tempfile.TemporaryDirectory(prefix='rv-c06-fresh-') as tmp:
+            path = os.path.join(tmp, 'input.json')
+            with open(path, 'w') as f:
+                json.dump(spec, f)
+            p = subprocess.run([sys.executable, '-c', FRESH_SCRIPT, path], capture_output=True, text=True, timeout=300,  # noqa: S603
+                               env=dict(os.environ), cwd=tmp)
+        doc = json.loads(p.stdout.strip().splitlines()[-1])
+    except Exception:  # noqa: BLE001  (time-out, no JSON: the harness, not the package)
+        ctx.oracle_error('C06 fresh interpreter (harness)')
+        return
+    src = os.path.realpath(os.environ.get('RV_REPO_SRC', '/repo/src'))
+    if doc['stage'] == 'setup' or (doc['stage'] == 'done' and (
+            doc['input_as_built'] != want_input or doc['preloaded']
+            or not os.path.realpath(doc['file'] or '').startswith(src + os.sep))):
+        # the input did not arrive as it was sent / not the tree under test / not a fresh state: nothing to judge
+        ctx.oracle_error('C06 fresh interpreter (set-up of the subprocess)')
+        return
+    ctx.event('first call in a fresh interpreter')
+    ctx.hit('fresh interpreter: import ' + module)
+    if doc['stage'] != 'done':
+        ctx.violation('fresh_interpreter', f'in a fresh interpreter that imports only {module}, the first convert() fails at '
+                      f'stage {doc["stage"]!r}: {doc["error"]}', dict(case, module=module, trace=doc.get('trace')),
+                      stage=doc['stage'])
+        return
+    if not doc['input_unchanged']:
+        ctx.violation('input_modified', 'the first convert() of a fresh interpreter modified its binned input',
+                      dict(case, module=module), via='fresh interpreter')
+    if doc['result'] != want:
+        diff = sorted(set(doc['result']) ^ set(want)) + sorted(n for n in want if n in doc['result'] and doc['result'][n] != want[n])
+        ctx.violation('fresh_interpreter', f'the first convert() of a fresh interpreter that imports only {module} gives '
+                      f'another result than the same call in the worker process (differs: {", ".join(diff)})',
+                      dict(case, module=module), stage='result')
+
+
 def graph_route(scn, mon, ctx, k, da, origin, tgt, scatter, meta):
     """The same conversion without convert(): transform_coords with the graphs / kernels the package documents."""
     from scippneutron.conversion import graph as GR
@@ -1355,7 +1732,45 @@ def forced_programs(index):
     for j in range(2):
         out.append({'program': 'after_exception', 'target': RECONVERT_TARGETS[(j + index) % len(RECONVERT_TARGETS)],
                     'layout': ['2d', '1d'][j]})
+    # round 7: aliasing of result and argument / in-place modification between two calls; every (placement, target) pair
+    # within any 8 neighbouring shards
+    pairs = alias_pairs()
+    for j in range(ALIAS_PER_SHARD):
+        e = ALIAS_PER_SHARD * index + j
+        pl, t = pairs[e % len(pairs)]
+        out.append({'program': 'aliasing', 'target': t, 'geom': 'positions', 'placement': pl,
+                    'layout': ALIAS_LAYOUTS[e % len(ALIAS_LAYOUTS)], 'modification': MODIFICATIONS[(e + e // 4) % len(MODIFICATIONS)],
+                    'dataset': e % 5 == 4, 'hit': alias_label(pl, t)})
+    for j, g in enumerate(('beams', 'reduced')):
+        out.append({'program': 'aliasing', 'target': [('tof', 'dspacing'), ('tof', 'Q'), ('tof', 'energy_transfer:direct'),
+                                                      ('wavelength', 'dspacing')][(index + j) % 4], 'geom': g,
+                    'layout': ALIAS_LAYOUTS[(index + j + 1) % len(ALIAS_LAYOUTS)],
+                    'modification': MODIFICATIONS[(index + j) % len(MODIFICATIONS)], 'hit': 'aliasing: geometry as ' + g})
+    # names outside NFC / NFKC for everything the conversion has nothing to do with (event / pixel coordinate, event /
+    # pixel mask, pixel dimension): they come through code point by code point
+    for j in range(2):
+        i0 = 2 * index + j
+        nm = {key: ODD_NAMES[(i0 + d) % len(ODD_NAMES)] for d, key in enumerate(('ev', 'px', 'evmask', 'pxmask', 'dim'))}
+        out.append({'program': 'single', 'target': ELASTIC_ROT[(index + j) % len(ELASTIC_ROT)], 'names': nm,
+                    'layout': ['2d', '1d', 'gaps', 'transposed'][(index + j) % 4], 'odd_names': True})
+    # dimension lengths next to the lengths scipp / the kernels use internally (3 components of a vector, 2 of a range)
+    for j, n in enumerate((2, 3, 4)):
+        out.append({'program': 'single', 'target': [('tof', 'hkl:'), ('tof', 'dspacing'), ('tof', 'geom:scattered_beam'),
+                                                    ('tof', 'energy_transfer:indirect')][(index + j) % 4],
+                    'geom': 'positions', 'layout': ['2d', '1d', 'transposed'][(index + j) % 3], 'npix': n,
+                    'nt': (2, 3, 4)[(index + j + 1) % 3], 'bin_size': (2, 3, 4)[(index + 2 * j) % 3],
+                    'hit': f'pixel dimension of length {n}'})
+    out.append({'program': 'fresh', 'target': FRESH_TARGETS[index % len(FRESH_TARGETS)], 'geom': 'positions',
+                'placement': ALIAS_PLACEMENTS[index % 2 * 3], 'layout': ['2d', '1d'][index % 2], 'npix': 3, 'nt': 2})
     return out
+
+
+# decomposed accent, ANGSTROM / KELVIN / OHM / MICRO SIGN, fullwidth letters (NFKC: 'tof'), ligature (NFKC: 'final_energy'),
+# conjoining jamo, Greek question mark (NFC: ';')
+ODD_NAMES = ['e\u0301nergie', '\u212bngstrom', '\u212a', '\u2126', '\u00b5s', '\uff54\uff4f\uff46', '\ufb01nal_energy',
+             '\u1112\u1161\u11ab', 'tof\u037e']
+FRESH_TARGETS = [('tof', 'dspacing'), ('tof', 'energy_transfer:direct'), ('tof', 'wavelength'), ('wavelength', 'Q'),
+                 ('tof', 'energy_transfer:indirect'), ('tof', 'energy'), ('tof', 'Q'), ('tof', 'wavelength:noscatter')]
 
 
 HEAVY = [(3, 2 ** 20 + 7), (3, 3 * 400001)]      # (pixels, events): one conversion each, on a shard of its own
@@ -1372,7 +1787,11 @@ def requirements(tier):
                        'qvec_definition': 20, 'dataset item': 20, 'bystander event coordinate judged': 50,
                        'event coordinate shadowing a dense one': 8, 'twin variances': 20, 'definition variances': 20,
                        'second use of the same input': 20, 're-conversion result': 20, 'refused request': 8,
-                       'heavy conversion': len(HEAVY)},
+                       'heavy conversion': len(HEAVY),
+                       'write into a computed coordinate of the result': 200,
+                       'conversion repeated after writes into the result': 60, 'write into the argument after the call': 40,
+                       'conversion of the same object after an in-place change': 40,
+                       'first call in a fresh interpreter': 6},
             'forced': ['layout:' + x for x in LAYOUTS] + ['evdtype:float32', 'evdtype:int64', 'mode:direct', 'mode:indirect']
             + ['gravity wavelength unit:' + u for u in ('angstrom', 'nm', 'm')]
             + ['binned gravity with per-pixel incident beams', 'hkl-family target',
@@ -1395,6 +1814,14 @@ def requirements(tier):
                'pixel dimension named like an internal / coordinate name', 'conversion repeated after a refused request',
                'heavy: 1048583 events', 'heavy: 1200003 events']
             + ['re-conversion x ' + target_label(t) for t in RECONVERT_TARGETS]
+            # round 7
+            + [alias_label(pl, t) for pl, t in alias_pairs()]
+            + ['aliasing: geometry as beams', 'aliasing: geometry as reduced', 'aliasing: Dataset']
+            + ['in-place modification between two calls: ' + m for m in MODIFICATIONS]
+            + ['names outside NFC / NFKC for unrelated coordinates, masks and the pixel dimension']
+            + ['name outside NFC / NFKC:' + ascii(n) for n in ODD_NAMES]
+            + [f'pixel dimension of length {n}' for n in (2, 3, 4)] + [f'every bin with exactly {n} events' for n in (2, 3, 4)]
+            + ['fresh interpreter: import ' + m for m in FRESH_MODULES]
             + ['bystander event coordinate:' + n for n in RESERVED]
             + [f'bystander {n} x {target_label(t)}' for t, n in BYSTANDER_FIXED]
             + ['variances x ' + target_label(t) for t in VARIANCE_TARGETS]
@@ -1511,6 +1938,14 @@ def run(shard, ctx):
             elif program == 'graph':
                 graph_route(scn, mon, ctx, force['route'], da, origin, tgt, scatter, meta)
                 sig = ('graph route', force['route'] % 3, *sig)
+            elif program == 'aliasing':
+                aliasing_program(scn, mon, ctx, i, obj, origin, tgt, scatter, meta, force['modification'])
+                if container == 'Dataset':
+                    ctx.hit('aliasing: Dataset')
+                sig = ('aliasing', force.get('placement'), force['modification'], *sig)
+            elif program == 'fresh':
+                fresh_interpreter_program(scn, mon, ctx, i + shard['index'], da, origin, tgt, scatter, meta)
+                sig = ('fresh interpreter', *sig)
             else:
                 if program == 'bystander' and meta.get('bystander'):
                     if force['bystander']['kind'] == 'unrelated' and 'targets' not in force:
@@ -1518,6 +1953,14 @@ def run(shard, ctx):
                     if container == 'Dataset':
                         ctx.hit('bystander event coordinate in a Dataset')
                     sig = ('bystander', force['bystander']['kind'], meta['bystander'], *sig)
+                if force and force.get('odd_names'):
+                    ctx.hit('names outside NFC / NFKC for unrelated coordinates, masks and the pixel dimension')
+                    for nm_ in force['names'].values():
+                        ctx.hit('name outside NFC / NFKC:' + ascii(nm_))
+                    sig = ('odd names', *sig)
+                if force and force.get('bin_size'):
+                    ctx.hit(f'every bin with exactly {force["bin_size"]} events')
+                    sig = ('sizes', force['npix'], force['bin_size'], *sig)
                 if program == 'after_exception':
                     # a request the derivation model refuses (no rule makes this target), caught; then the real one
                     mon.expect_refusal = True
@@ -1548,7 +1991,9 @@ TECHNIQUE = ('runtime monitors (sys.monitoring) on convert() and on the gravity 
              '(elastic closed forms with L1/L2/two_theta from positions or beams, energy balance and NaN rule for '
              'inelastic targets, Q vector, geometry targets); which coordinates a conversion reads (everything else must '
              'come through unchanged and is left out of the twins) is decided by the derivation model rv.oracle.convgraph; '
-             'call-sequence programs (re-conversion, chaining, second use) judged call by call')
+             'call-sequence programs (re-conversion, chaining, second use, in-place change of the argument between two '
+             'calls) judged call by call; memory-sharing test of every computed coordinate of the result against the '
+             'argument (write, re-read, re-convert); bit-for-bit comparison with the first call of a fresh interpreter')
 LEVEL_TEXT = ('exploration: for every observed convert() call on binned data the monitor rebuilds two dense twins '
               '(flat event buffer with pixel geometry gathered per event; each pixel alone with scalar geometry) and '
               'requires the event coordinate of the result to equal the dense result bit for bit, the bin-edge '
